@@ -12,6 +12,8 @@ Inductive case :=
 | CLower (s obs : bytes)
 | CLen (s : bytes) (obs : Z)
 | CChar (l : list Z) (obs : bytes)
+| CRepErr (s : bytes) (n : Z)          (* string.rep raised *)
+| CCharErr (l : list Z)                (* string.char raised *)
 | CFormat (f : bytes) (args : list farg) (obs : fres)
 | CMath (op : mop) (args : list num) (obs : mres num)
 | CRandom (args : list num) (obs : option Z)        (* None: the call raised *)
@@ -49,12 +51,19 @@ Definition check_impl (c : case) : bool :=
   | CSub2 s i o => beqb (strSub s i (-1)) o
   | CByte s oi oj o => beqb (strByte s oi oj) o
   | CFind s p oi o => opt_eqb pair_eqb (strFindPlain s p oi) o
-  | CRep s n o => beqb (strRep s n) o
+  (* branches, not &&: vm_compute is call by value and must not build a 2^40-fold repetition;
+     the repetition of the empty string is empty (StrFacts.rep_nil) *)
+  | CRep s n o =>
+    if strRep_raises s n then false
+    else if len s =? 0 then beqb [] o
+    else beqb (strRep s n) o
+  | CRepErr s n => strRep_raises s n
+  | CCharErr l => negb (is_bytes l)
   | CReverse s o => beqb (strReverse s) o
   | CUpper s o => beqb (strUpper s) o
   | CLower s o => beqb (strLower s) o
   | CLen s o => strLen s =? o
-  | CChar l o => beqb (strChar l) o
+  | CChar l o => is_bytes l && beqb (strChar l) o
   | CFormat f args o => fres_eqb (format true f args) o
   | CMath op args o => mres_eqb (run_math op args) o
   | CRandom args o =>
@@ -72,12 +81,18 @@ Definition check_spec (c : case) : bool :=
   | CSub2 s i o => beqb (sub_spec s i (-1)) o
   | CByte s oi oj o => beqb (byte_spec s oi oj) o
   | CFind s p oi o => opt_eqb pair_eqb (find_plain_spec s p oi) o
-  | CRep s n o => beqb (rep_spec s n) o
+  | CRep s n o =>
+    if len s =? 0 then beqb [] o
+    else if len s * n >? 67108864 then true      (* a result of that size is not carried over *)
+    else beqb (rep_spec s n) o
+  (* an error is acceptable only where the result could not reasonably be built (> 16 MB) *)
+  | CRepErr s n => (0 <? n) && (len s * n >? 16777216)
+  | CCharErr l => negb (is_bytes l)       (* bad argument (invalid value) *)
   | CReverse s o => beqb (rev s) o
   | CUpper s o => beqb (map toupper_c s) o
   | CLower s o => beqb (map tolower_c s) o
   | CLen s o => len s =? o
-  | CChar l o => beqb l o
+  | CChar l o => is_bytes l && beqb l o
   | CFormat f args o =>
     if items_defined (parse_fmt (length f) f) args then fres_eqb (format false f args) o else true
   | CMath op args o => spec_math op args o
